@@ -69,9 +69,13 @@ def _tls_domain_validated(facts, s):
         ok, w = call.guarded(c.bb, valid)
         if not ok:
             return False, "TlsConnectionFuture::new is reachable without ServerName::try_from(host) having succeeded"
-        hr = call.roots(c.args[2])
-        if not any(r.kind == "call" and r.site.is_("http::Uri::host", "http::uri::Uri::host") for r in hr):
-            return False, "the domain given to the TLS future does not derive from uri.host()"
+        hr = {r.desc for r in call.roots(c.args[2]) if r.kind == "call" and not r.site.matches(r"ToOwned|to_owned|String|Clone")}
+        validated = set()
+        for x in call.calls():
+            if x.matches(r"TryFrom.*try_from$") and "ServerName" in " ".join(x.t.get("targs") or []) + norm(x.name):
+                validated |= {r.desc for r in call.roots(x.args[0]) if r.kind == "call"}
+        if not (hr & validated):
+            return False, "the domain given to the TLS future is not the value that was validated with ServerName::try_from"
     callers = {x.fn.nkey for x in facts.call_sites_of("client::conn::transport::tls::future::TlsConnectionFuture::new")}
     if callers != {call.nkey}:
         return False, "TlsConnectionFuture::new has other callers: %s" % sorted(callers)
